@@ -324,7 +324,7 @@ pub struct TntCase {
 }
 
 fn tnt_strategy() -> impl Strategy<Value = TntCase> {
-    (shape_strategy(1, 4, 1, 5, 300), prop::collection::vec(0u64..1_000_000_000_000_000, 300), 0usize..=15, any::<u64>()).prop_map(|(shape, mut m, precision, negative_mask)| {
+    (shape_strategy(1, 4, 1, 5, 300), prop::collection::vec(prop_oneof![8 => 0u64..1_000_000_000_000_000, 1 => Just(0u64), 1 => 0u64..1000], 300), 0usize..=15, any::<u64>()).prop_map(|(shape, mut m, precision, negative_mask)| {
         m.truncate(elements(&shape));
         TntCase { shape, mantissas: m, precision, negative_mask }
     })
@@ -340,7 +340,8 @@ fn eval_tnt(ctx: &Ctx, case: &TntCase) -> Verdict {
         .map(|(i, m)| {
             let digits = format!("{m:0>width$}", width = p + 1);
             let (int, frac) = digits.split_at(digits.len() - p);
-            let neg = (case.negative_mask >> (i % 64)) & 1 == 1 && *m != 0;
+            // (a negative zero, `-0.000`, is a value the tool itself prints for -0.0 and for tiny negatives)
+            let neg = (case.negative_mask >> (i % 64)) & 1 == 1;
             if p == 0 {
                 format!("{}{int}", if neg { "-" } else { "" })
             } else {
